@@ -116,8 +116,6 @@ type histRelease struct {
 	relKey     string // debian: route of dists/<code>/Release
 	listedFrom int    // first run in which the mirror lists it
 	listedTo   int    // last run in which the mirror lists it (0 = for ever)
-	servedOK   bool   // debian: the Release file was served without a fault in some run so far
-	dropCause  string // debian: why the latest stored operation lacks the release: "release-file" (the finding) or "listing"
 	pair       pkgPair
 	ir         *claircore.IndexReport
 	expect     int // epoch of the feed the store holds for it (0 = no demand)
@@ -182,6 +180,9 @@ type history struct {
 	changed   map[int][]string // run -> ecosystems that republish in that run whatever the dice say
 	forcedSt  map[int][]string // run -> routes that answer 503 in that run
 	quiet     map[int]bool     // run -> no faults and nothing republished (the dice are not asked)
+	// debian: per run, was the dists/ listing served, and which Release files failed
+	debListingOK map[int]bool
+	debRelFault  map[int]map[string]bool
 }
 
 func (hy *history) logf(f string, a ...any) { hy.log = append(hy.log, fmt.Sprintf(f, a...)) }
@@ -453,11 +454,14 @@ func (hy *history) run(ctx context.Context, run int) {
 	}
 	// what this run's successful operations oblige
 	_, listingFault := faults["deb.test/debian/dists/"]
+	hy.debListingOK[run] = !listingFault
+	hy.debRelFault[run] = map[string]bool{}
 	for _, x := range hy.rels {
-		if x.eco == "debian" && x.listed(run) && !listingFault {
-			if _, f := faults[x.relKey]; !f {
-				x.servedOK = true
-			}
+		if x.eco != "debian" {
+			continue
+		}
+		if _, f := faults[x.relKey]; f {
+			hy.debRelFault[run][x.relKey] = true
 		}
 	}
 	for _, x := range hy.rels {
@@ -468,41 +472,18 @@ func (hy *history) run(ctx context.Context, run int) {
 		switch {
 		case x.eco != "debian":
 			x.expect = hy.epoch[x.feed]
-		case x.listed(run) && x.servedOK:
+		case x.listed(run) && hy.debianAbsence(x, run) == "known":
 			x.expect = hy.epoch[x.feed]
-			x.dropCause = ""
-		case x.listed(run) && listingFault:
-			// an operation was stored in a run whose dists/ listing could not be
-			// fetched: the release table was not refreshed, and Parse succeeded
-			x.expect = 0
-			x.dropCause = "listing"
-		case x.listed(run):
-			x.expect = 0
-			x.dropCause = "release-file"
 		default:
 			// the single debian updater stored a new operation; the mirror does
-			// not list this release (any more), or its Release file has never
-			// been read: nothing is demanded
+			// not list this release (any more), or the release was not in the
+			// table when the feed was parsed: classified below
 			x.expect = 0
 		}
 	}
-	// a run without any transient fault brings the store up to date: every
-	// release the mirrors list has its current feed stored
-	if len(faults) == 0 {
+	faultFree := len(faults) == 0
+	if faultFree {
 		r.Count("history:fault-free-run")
-		for _, x := range hy.rels {
-			if !x.listed(run) || x.expect == hy.epoch[x.feed] {
-				continue
-			}
-			msg := fmt.Sprintf("history %d %s release=%s run=%d: history [%s]: the run had no transient fault, the mirror lists the release, and the store does not hold the release's current feed (epoch %d; the updater %s last stored epoch %d)",
-				hy.id, x.eco, x.rel, run, strings.Join(hy.log, " | "), hy.epoch[x.feed], x.updater, x.expect)
-			if x.eco == "debian" && hy.st.stored(x.updater) != run && x.dropCause == "release-file" {
-				// the tracker was not republished since the operation that left the release out
-				r.Fail("debian-release-fault-drops", msg+" (the tracker feed has not changed since the operation that left the release out)")
-				continue
-			}
-			r.Fail("", msg)
-		}
 	}
 	// the statement, on every image
 	for _, x := range hy.rels {
@@ -527,6 +508,7 @@ func (hy *history) run(ctx context.Context, run int) {
 				r.Fail("", fmt.Sprintf("%s: the advisory %s of another release is reported for %s", where, g, x.pair.vulnBin))
 			}
 		}
+		last := hy.st.stored(x.updater)
 		switch {
 		case x.expect != 0:
 			r.Count("history:demand:" + x.eco)
@@ -535,15 +517,68 @@ func (hy *history) run(ctx context.Context, run int) {
 				r.Fail("", fmt.Sprintf("%s: the updater %s last stored the feed of run %d successfully, the mirror lists the release, and the vulnerable package %s@%s (fixed in %s) is reported %v, expected exactly [%s]",
 					where, x.updater, x.expect, x.pair.vulnBin, x.pair.vulnVer, x.pair.fixIn, gotV, want))
 			}
-		case x.eco == "debian" && x.listed(run) && !x.servedOK && hy.st.stored(x.updater) == run && len(gotV) == 0 && x.dropCause == "listing":
-			r.Fail("", fmt.Sprintf("%s: the dists/ listing of the mirror could not be fetched in this run, debian/updater ran all the same, its Parse succeeded and the operation stored (fingerprint: the tracker's Last-Modified) holds no advisory of the release %s, which the mirror lists: the vulnerable package %s@%s is reported %v", where, x.rel, x.pair.vulnBin, x.pair.vulnVer, gotV))
-		case x.eco == "debian" && x.listed(run) && !x.servedOK && hy.st.stored(x.updater) == run && len(gotV) == 0:
-			r.Count("history:debian-never-enumerated")
-			r.Fail("debian-release-fault-drops", fmt.Sprintf("%s: dists/%s/Release has failed in every enumeration so far; debian/updater's Parse succeeded and stored no advisory of the release", where, x.rel))
+			// a run without any transient fault brings the store up to date
+			if faultFree && x.listed(run) && x.expect != hy.epoch[x.feed] {
+				r.Fail("", fmt.Sprintf("%s: the run had no transient fault, the mirror lists the release, and the store does not hold the release's current feed (epoch %d; the updater %s last stored epoch %d)", where, hy.epoch[x.feed], x.updater, x.expect))
+			}
+		case x.eco == "debian" && x.listed(run) && last != 0 && len(gotV) == 0 && (last == run || faultFree):
+			// The latest stored operation of debian/updater (run `last`) holds
+			// nothing for a release the mirror lists.  Why was the release not in
+			// the process-wide table when that feed was parsed?  Computed from the
+			// history, not from the look of the failure.
+			switch cause := hy.debianAbsence(x, last); cause {
+			case "release-file":
+				// every enumeration up to then that got the dists/ listing and
+				// found the release in it failed to read its Release file
+				r.Count("history:debian-never-enumerated")
+				r.Fail("debian-release-fault-drops", fmt.Sprintf("%s: up to run %d every enumeration that was served the dists/ listing with %s in it failed to read dists/%s/Release; the Parse of run %d succeeded and stored no advisory of the release", where, last, x.rel, x.rel, last))
+			case "not-listed-yet":
+				// the mirror did not list the release in any run up to then, and
+				// the tracker has not been republished since
+				r.Count("history:debian-new-release-waits")
+				r.Fail("debian-new-release-waits-for-tracker", fmt.Sprintf("%s: the mirror lists %s since run %d, after the latest stored operation of debian/updater (run %d, when the tracker already named the release); the tracker feed has not changed since, Fetch answers Unchanged, and the release's advisories are not in the store", where, x.rel, x.listedFrom, last))
+			case "listing-failed":
+				r.Fail("", fmt.Sprintf("%s: the dists/ listing could not be fetched in any run up to %d in which the mirror listed %s, debian/updater ran all the same in run %d, its Parse succeeded and the operation stored (fingerprint: the tracker's Last-Modified) holds no advisory of the release: the vulnerable package %s@%s is reported %v", where, last, x.rel, last, x.pair.vulnBin, x.pair.vulnVer, gotV))
+			default:
+				r.Fail("", fmt.Sprintf("%s: dists/%s/Release was read in an enumeration up to run %d; the operation debian/updater stored in run %d holds no advisory of the release: the vulnerable package %s@%s is reported %v", where, x.rel, last, last, x.pair.vulnBin, x.pair.vulnVer, gotV))
+			}
+		case faultFree && x.listed(run) && (x.eco != "debian" || last == 0):
+			r.Fail("", fmt.Sprintf("%s: the run had no transient fault, the mirror lists the release, and the store holds nothing of the updater %s for it (current feed: epoch %d)", where, x.updater, hy.epoch[x.feed]))
 		default:
 			r.Count("history:no-demand:" + x.eco)
 		}
 	}
+}
+
+// debianAbsence says whether, and if not why not, the release was in debian's
+// process-wide release table when the feed of run j was parsed, from the
+// history up to j: "known" (some enumeration was served the listing with the
+// release in it and read its Release file), "release-file" (enumerations were
+// served the listing with the release in it, and every one of them failed to
+// read the file), "listing-failed" (the mirror listed it, but no enumeration
+// was served the listing), "not-listed-yet" (the mirror did not list it).
+func (hy *history) debianAbsence(x *histRelease, j int) string {
+	listed, served := false, false
+	for i := 1; i <= j; i++ {
+		if !x.listed(i) {
+			continue
+		}
+		listed = true
+		if !hy.debListingOK[i] {
+			continue
+		}
+		served = true
+		if !hy.debRelFault[i][x.relKey] {
+			return "known"
+		}
+	}
+	switch {
+	case served:
+		return "release-file"
+	case listed:
+		return "listing-failed"
+	}
+	return "not-listed-yet"
 }
 
 func (h *harness) sectionHistory() {
@@ -596,9 +631,10 @@ func (h *harness) sectionHistory() {
 		}
 	}
 
-	nh, nr := h.cfg.N(3, 24), h.cfg.N(6, 10)
+	nh, nr := h.cfg.N(4, 24), h.cfg.N(6, 10)
 	for hi := 0; hi < nh && !r.Stop(); hi++ {
-		hy := &history{id: hi, h: h, w: newWorld(), st: newHistStore(), epoch: map[string]int{}, forced: map[int][]string{}, forcedNet: map[int][]string{}, changed: map[int][]string{}, forcedSt: map[int][]string{}, quiet: map[int]bool{}}
+		hy := &history{id: hi, h: h, w: newWorld(), st: newHistStore(), epoch: map[string]int{}, forced: map[int][]string{}, forcedNet: map[int][]string{}, changed: map[int][]string{}, forcedSt: map[int][]string{}, quiet: map[int]bool{},
+			debListingOK: map[int]bool{}, debRelFault: map[int]map[string]bool{}}
 		hy.w.conditional = true
 		tag := freshTag()
 		for _, a := range alps {
@@ -749,6 +785,11 @@ func (h *harness) sectionHistory() {
 		if hi < 2 && len(debs) > 1 {
 			hy.forced[2] = []string{debs[hi%(len(debs)-1)].relKey}
 			hy.forced[3] = []string{debs[len(debs)-1].relKey}
+		}
+		if hi == 3 && len(debs) > 1 {
+			// corpus/C04/history-new-release-tracker-unchanged.txt: the late
+			// release enters the mirror in run 3; runs 3 and 4 are quiet
+			hy.quiet[3], hy.quiet[4] = true, true
 		}
 		if hi == 2 && len(debs) > 1 {
 			// the listing itself fails in the run in which the late release
@@ -1051,6 +1092,48 @@ func (h *harness) knownDebianFault() {
 			}
 			if n != 1 {
 				r.Fail("", fmt.Sprintf("debian: GET dists/ answers 503 in the first enumeration of a mirror listing %s; UpdaterSet hands out the updater all the same, and its Fetch and Parse succeed with %d of the 1 advisories the tracker has for %s (an operation without the release would be stored under the tracker's Last-Modified)", code2, n, code2))
+			}
+		}
+	}
+	// a release enters the mirror while the tracker feed stays as it is
+	{
+		tag := freshTag()
+		a, b := "vrf"+tag+"ya", "vrf"+tag+"yb"
+		w3 := newWorld()
+		w3.conditional = true
+		advs := map[string][]adv{a: {{pkg: "pa", fixed: "1", id: "CVE-ya"}}, b: {{pkg: "pb", fixed: "1", id: "CVE-yb"}}}
+		w3.debianWorld([]debRelease{{a, 63}, {b, 64}}, advs)
+		// the mirror does not list b yet (the tracker names it already)
+		w3.debianWorld([]debRelease{{a, 63}}, advs)
+		w3.del("deb.test/debian/dists/" + b + "/Release")
+		r.Case("debian: a release enters the mirror, the tracker is unchanged", true)
+		f, err := debFactory(ctx, w3)
+		if err == nil {
+			if us, err := f.UpdaterSet(ctx); err == nil && len(us.Updaters()) == 1 {
+				u := us.Updaters()[0]
+				if c, ok := u.(driver.Configurable); ok {
+					c.Configure(ctx, noConfig, w3.client())
+				}
+				if rc, fp, err := u.Fetch(ctx, ""); err == nil {
+					vs, perr := u.Parse(ctx, rc)
+					nb := 0
+					for _, v := range vs {
+						if v.Name == "CVE-yb" {
+							nb++
+						}
+					}
+					// now the mirror lists b
+					w3.debianWorld([]debRelease{{a, 63}, {b, 64}}, advs)
+					if us2, err := f.UpdaterSet(ctx); perr == nil && nb == 0 && err == nil && len(us2.Updaters()) == 1 {
+						u2 := us2.Updaters()[0]
+						if c, ok := u2.(driver.Configurable); ok {
+							c.Configure(ctx, noConfig, w3.client())
+						}
+						if _, _, err := u2.Fetch(ctx, fp); err == driver.Unchanged {
+							r.KnownSeen("debian-new-release-waits-for-tracker", fmt.Sprintf("tracker naming %s and %s, mirror listing %s only: operation stored without %s; then the mirror lists %s too, its Release file is read, and Fetch with the stored fingerprint answers Unchanged", a, b, a, b, b))
+						}
+					}
+				}
 			}
 		}
 	}
